@@ -59,7 +59,7 @@ SAFE = {"string": ["a", "b", "x y", "A"], "int": [1, 2, 3, 0, -1], "float": [1.0
 def simple_prop(rng, name):
     """Values the XML round trip keeps as they are (anything else is C01's business)."""
     dtype = rng.choice(["string", "string", "int", "float", "boolean"])
-    n = rng.choice([1, 1, 2, 3])
+    n = rng.choice([1, 1, 2, 3, 0])       # 0: a Property without values (an empty Property is falsy)
     return {"name": name, "dtype": dtype, "values": [m.to_tag(v) for v in rng.sample(SAFE[dtype], min(n, len(SAFE[dtype])))],
             "unit": rng.choice([None, None, "mV"]), "unc": None,
             "def": rng.choice([None, None, "pdef"]), "ref": None, "origin": None}
